@@ -244,7 +244,7 @@ func extractOpTables(t *Tree, pkg string) *opTables {
 			if cal == nil {
 				return sval{}, false
 			}
-			switch cal.Name() {
+			switch fnName(cal) {
 			case "RunExpr":
 				// which operand: by the argument (expr.LHS / expr.RHS), wherever the call sits (the evaluator itself
 				// or a helper it hands the node to); GetRet hands out the operand evaluated last
@@ -269,7 +269,7 @@ func extractOpTables(t *Tree, pkg string) *opTables {
 	v1hook := func(f *ssa.Function, operands [][2]sval) func(fn *ssa.Function, call *ssa.Call, nth int, args []sval) (sval, bool) {
 		return func(fn *ssa.Function, call *ssa.Call, nth int, args []sval) (sval, bool) {
 			cal := call.Call.StaticCallee()
-			if cal != nil && cal.Name() == "RunStmt" && len(args) >= 2 {
+			if cal != nil && fnName(cal) == "RunStmt" && len(args) >= 2 {
 				if k := operandIndex(args[1].String(), len(operands), nth-1); k >= 0 && k < len(operands) {
 					return sval{tup: []sval{operands[k][0], operands[k][1], {nil: true}}}, true
 				}
